@@ -26,6 +26,14 @@ def items(tier):
             ]
             for mt in (None, 2):
                 out.append((sp, {"rule": "TSLACK", "max_time": mt if mt is not None else F.seq_bound(sp) + 8}))
+    # tasks that run out of work and are held WORKING by an FF/SF link (their resources keep being charged while they are logged WORKING)
+    for fl in list(F.flows(3, ("FF", "SF", "SS"), (1, 3)))[:: (5 if tier == "quick" else 1)]:
+        if not fl["links"]:
+            continue
+        sp = F.with_teams(fl, "DED")
+        out.append((sp, {"rule": "TSLACK", "max_time": F.seq_bound(sp) + 8}))
+    for sp in F.ff_held_component_specs():
+        out.append((sp, {"rule": "TSLACK", "max_time": F.seq_bound(sp) + 8}))
     # resources sharing a name (the constructor default gives every unnamed worker / facility the same name): IDs differ
     for r0, r1 in ((4.0, 6.0), (0.0, 3.0), (2.0, 2.0)):
         for par in (True, False):
@@ -65,6 +73,7 @@ def option_items(tier):
         for k in (1, 2, 3):
             out.append((sp, dict(o, resume_from=k)))
         out.append((sp, dict(o, reload=True)))
+        out.append((sp, dict(o, presim=1, presim_queries=True)))  # a second run after every read-only helper was called once
         for lst in ([1], [2, 1], [3, 1, 2], [0, 2]):
             out.append((sp, dict(o, post_insert=lst)))
             out.append((sp, dict(o, post_insert=lst, reload=True)))
